@@ -457,7 +457,23 @@ struct G
         int budget = cfg.max_gdecls;
         int ni = 1, nx = 1, nc = 1;
         while (budget-- > 0) {
-            switch (rng.below(15)) {
+            switch (rng.below(16)) {
+            case 15: {
+                // scalar sets are name-equivalent: the builder gives each an internal label from a running counter
+                std::string n = "sc" + std::to_string(uniq++);
+                MDecl d;
+                d.kind = MDecl::TYPEDEF;
+                d.text = "typedef scalar[3] " + n + ";";
+                d.name = n;
+                add(d);
+                std::string v = "gz" + std::to_string(uniq++);
+                add(var(n + " " + v + ";", v));
+                if (rng.chance(0.5)) {
+                    std::string a = "gza" + std::to_string(uniq++);
+                    add(var("int " + a + "[" + n + "];", a));
+                }
+                break;
+            }
             case 14: {
                 // the built-in prologue (INT8_MIN ..., int8_t ..., M_PI ...) is declared by the library before every model,
                 // through a different route for XML and for XTA input
@@ -1217,6 +1233,17 @@ Model gen_old_model(Rng& rng)
             case 1: p.name = "pc" + std::to_string(k); p.text = "const " + p.name; p.byref = false; p.base = 'k'; break;
             case 2: p.name = "px" + std::to_string(k); p.text = "clock " + p.name; p.byref = true; p.base = 'x'; clocks.push_back(p.name); break;
             default: p.name = "pch" + std::to_string(k); p.text = "chan " + p.name; p.byref = true; p.base = 'c'; chans.push_back(p.name); break;
+            }
+            // "const a, b" - one group for consecutive constant parameters
+            if (!t.params.empty() && p.base == 'k' && t.params.back().base == 'k' && rng.chance(0.6)) {
+                MParam* head = &t.params.back();
+                for (size_t h = t.params.size(); h-- > 0;)
+                    if (!t.params[h].text.empty()) {
+                        head = &t.params[h];
+                        break;
+                    }
+                head->text += ", " + p.name;
+                p.text.clear();
             }
             t.params.push_back(p);
         }
